@@ -115,6 +115,24 @@ def write_replay(pid, failure):
     }
     with open(path, "w") as f:
         json.dump(doc, f, indent=1, default=repr)
+    # the same case as a plain script: rebuilds fresh objects and re-executes just this case (no enumeration,
+    # no search); exit status 1 if it still fails
+    try:
+        with open(path[:-5] + ".py", "w") as f:
+            f.write(
+                "#!/venv/bin/python\n"
+                f"# Stand-alone replay of one {pid} case: {str(failure.get('what'))[:200]!r}\n"
+                "import os, sys\n"
+                f"sys.path[:0] = [os.environ.get('LABREA_REPO', '/repo'), {VERIF!r}]\n"
+                f"from labmc.checks import {pid.lower()} as check\n"
+                f"case = {failure.get('case')!r}\n"
+                "result = check.run_case(case)\n"
+                "for fl in result.get('failures', []):\n"
+                "    print(fl['what']); print('   ', fl.get('detail', ''))\n"
+                "sys.exit(1 if result.get('failures') else 0)\n"
+            )
+    except OSError:
+        pass
     return path
 
 
